@@ -68,8 +68,17 @@ class Env:
     pass
 
 
+_ENV = []
+
+
 def _setup():
     """Imports of the code under test + reach counters. Done once per worker process."""
+    if not _ENV:
+        _ENV.append(_setup_once())
+    return _ENV[0]
+
+
+def _setup_once():
     from xdsl.context import Context
     from xdsl.dialects import arith, builtin, cf, func, scf, test
     from xdsl.dialects.builtin import ModuleOp
